@@ -553,9 +553,15 @@ class RepoInterp:
             plain = [tuple(p for p in k[1] if p[0] != 9) if k[0] == 1 else k for k in keys]
             if any(k[0] == 1 and any(p[0] == 9 for p in k[1]) for k in keys) and len(set(map(repr, plain))) != len(plain):
                 return None  # a tie would be decided by comparing unsortable objects (TypeError at runtime)
-            order = sorted(range(len(seq)), key=lambda i: repr(plain[i]) if False else plain[i])
-            if any(k.arg == "reverse" for k in call.keywords):
-                return None
+            rev = [k.value for k in call.keywords if k.arg == "reverse"]
+            reverse = False
+            if rev:
+                rv = it.eval(rev[0], st)
+                if not (isinstance(rv, K) and isinstance(rv.v, bool)):
+                    return None
+                reverse = rv.v
+            # sorted(..., reverse=True) keeps the original order of equal elements (it is not the reversed ascending sort)
+            order = sorted(range(len(seq)), key=lambda i: plain[i], reverse=reverse)
             res = [seq[i] for i in order]
             return st.alloc("list", res) if self.heap else R("list", items=tuple(res))
         if meth == "split" and self.heap and isinstance(fval, K) and isinstance(fval.v, str) and all(isinstance(a, K) for a in args):
@@ -1023,6 +1029,18 @@ def platform_call(fname: Optional[str], fval: Optional[V], call: ast.Call, args:
     if fname in ("keyword.iskeyword", "iskeyword", "keyword.issoftkeyword") and len(args) == 1 and isinstance(args[0], K) and not kwargs:
         import keyword as _kw  # platform table of reserved words, read as data
         return K(bool(isinstance(args[0].v, str) and (_kw.iskeyword(args[0].v) if "soft" not in fname else _kw.issoftkeyword(args[0].v))))
+    if fname in ("re.sub", "re.escape", "re.fullmatch", "re.match", "re.search", "re.split", "re.findall") and args and not kwargs \
+            and all(isinstance(a, K) and isinstance(a.v, (str, int)) for a in args):
+        import re as _re  # pure string functions of the platform library, on constant arguments
+        try:
+            r_ = getattr(_re, fname.split(".")[1])(*[a.v for a in args])
+        except Exception:
+            return None
+        if fname in ("re.fullmatch", "re.match", "re.search"):
+            return K(r_ is not None)  # only the truth of a match object is modelled
+        if isinstance(r_, list):
+            return K(tuple(K(x) for x in r_)) if all(isinstance(x, str) for x in r_) else None
+        return K(r_)
     if fname == "bool" and len(args) == 1 and isinstance(args[0], K):
         return K(bool(args[0].v))
     if fname in ("os.path.splitext", "os.path.basename", "os.path.dirname", "os.path.join", "posixpath.splitext") and args \
